@@ -291,7 +291,7 @@ class OpsMixin:
                 return [(st, obj.cls)]
             raise Unsupported(f"attribute {name} of exception value", node)
         if isinstance(obj, (BoundMethod, Closure, SSeq)):
-            if isinstance(obj, SSeq):
+            if isinstance(obj, SSeq) or (isinstance(obj, BoundMethod) and obj.name == "__dict__"):
                 return [(st, BoundMethod(obj, name))]
             raise Unsupported(f"attribute {name} of function value", node)
         if isinstance(obj, tuple) and not deep_host(obj):
